@@ -54,7 +54,7 @@ func TestMeasureRandom(t *testing.T) {
 	for k := 0; k < n; k++ {
 		r := newRng(seed(), uint64(k))
 		kind := kinds[k%6]
-		p := []float64{float64(r.between(2, 20)), float64(r.between(1, 6)), []float64{0.05, 0.2, 0.5, 1}[r.intn(4)], []float64{0.05, 0.25, 1}[r.intn(3)],
+		p := []float64{float64(r.between(2, 20)), float64(r.between(1, 6)), []float64{0.05, 0.2, 0.5, 1, 0.7, 0.8, 0.9, 0.99, 0.3, 0.01}[r.intn(10)], []float64{0.05, 0.25, 1}[r.intn(3)],
 			[]float64{0.5, 0.9, 0.99}[r.intn(3)], []float64{0.001, 0.01, 0.5}[r.intn(3)]}
 		m, twin := newMeasurement(kind, p), newMeasurement(kind, p)
 		w.write(J{"ev": "Reset", "trace": k, "cfg": J{"kind": kind}})
